@@ -1,7 +1,7 @@
 #!/usr/bin/env python3
 """Small mutation generator for /repo/src (development aid, not a registered check).
 
-usage: tools/mutate.py gen <out-dir> [--per-file N] [--seed S]
+usage: tools/mutate.py gen <out-dir> [--per-file N] [--seed S] [--files src/a.rs,src/b.rs]
 Writes one unified diff per mutant (applies with `git apply` at /repo's HEAD) plus index.json with
 {id, file, line, op, before, after, checks}.  Operators are syntactic and local to one line:
   cmp    == <-> !=, < <-> <=, > <-> >=            (in conditions)
@@ -16,10 +16,10 @@ import json, os, random, re, subprocess, sys
 
 REPO = "/repo"
 FILE_CHECKS = {
-    "src/live_events.rs": ["C02", "C08", "C11"],
-    "src/de.rs": ["C03", "C04", "C05", "C02", "C16"],
+    "src/live_events.rs": ["C02", "C11", "C09", "C16", "C08"],
+    "src/de.rs": ["C05", "C03", "C06", "C16", "C04", "C02"],
     "src/budget.rs": ["C07"],
-    "src/ser.rs": ["C13", "C20", "C14", "C12"],
+    "src/ser.rs": ["C13", "C12", "C20", "C14"],
     "src/ser_quoting.rs": ["C12"],
     "src/parse_scalars.rs": ["C06"],
     "src/buffered_input.rs": ["C09", "C10"],
@@ -31,11 +31,11 @@ FILE_CHECKS = {
     "src/de/snippet.rs": ["C17"],
     "src/de/spanned_deser.rs": ["C16"],
     "src/de/with_deserializer.rs": ["C09", "C11"],
-    "src/lib.rs": ["C11", "C09", "C10", "C18"],
+    "src/lib.rs": ["C11", "C09", "C18", "C10", "C17"],
     "src/wrapping.rs": ["C20", "C12"],
     "src/long_strings.rs": ["C20"],
     "src/base64.rs": ["C06"],
-    "src/de_error.rs": ["C17", "C18", "C15"],
+    "src/de_error.rs": ["C17", "C16", "C18", "C15"],
     "src/location.rs": ["C16"],
     "src/tags.rs": ["C06", "C05"],
 }
@@ -127,8 +127,12 @@ def main():
     rng = random.Random(seed)
     index = []
     n = 0
+    only = None
+    for k in range(0, len(a), 2):
+        if a[k] == "--files":
+            only = set(a[k + 1].split(","))
     for path, checks in FILE_CHECKS.items():
-        if not os.path.exists(os.path.join(REPO, path)):
+        if not os.path.exists(os.path.join(REPO, path)) or (only and path not in only):
             continue
         lines, cands = candidates(path)
         # weight: larger files get proportionally more
